@@ -295,31 +295,31 @@ package cisco
 //vc:spec macro modeBeliefSound(s *State) bool = s.subCmdOf == "" || s.subCmdOf == devMode
 
 //vc:func (*State).setCmdConfMode
-//vc:  hypothesis[C08] printedSup != "" && modeBeliefSound(s)
+//vc:  hypothesis[C08,C01,C02] printedSup != "" && modeBeliefSound(s)
 //vc:  assign after "s.addChange("#1 devMode = ""
 //vc:  assign after "s.addChange("#2 devMode = printedSup
-//vc:  ensures[C08] @deviceInParentMode s.subCmdOf == printedSup && devMode == printedSup
+//vc:  ensures[C08,C01,C02] @deviceInParentMode s.subCmdOf == printedSup && devMode == printedSup
 
 //vc:func (*State).addToplevel
 //vc:  assign after "s.addChange(c)" devMode = ""
 //vc:  ensures @oneCommandAppended len(s.Changes) == old(len(s.Changes)) + 1 && len(s.Changes) > 0
-//vc:  ensures[C08] @modeBeliefSound modeBeliefSound(s) && devMode == ""
+//vc:  ensures[C08,C01,C02] @modeBeliefSound modeBeliefSound(s) && devMode == ""
 
 //vc:func (*State).addCmd
-//vc:  hypothesis[C08] modeBeliefSound(s)
-//vc:  hypothesis[C08] @subCommandsOnlyUnderModeCommands len(c.sub) > 0 ==> c.typ.sub != nil && c.subCmdOf == nil
-//vc:  assert[C08] at "s.addChange(pr)" @subCommandInsideParentMode c.subCmdOf != nil ==> devMode == s.subCmdOf
+//vc:  hypothesis[C08,C01,C02] modeBeliefSound(s)
+//vc:  hypothesis[C08,C01,C02] @subCommandsOnlyUnderModeCommands len(c.sub) > 0 ==> c.typ.sub != nil && c.subCmdOf == nil
+//vc:  assert[C08,C01,C02] at "s.addChange(pr)" @subCommandInsideParentMode c.subCmdOf != nil ==> devMode == s.subCmdOf
 //vc:  assign after "s.addChange(pr)" devMode = ite(c.subCmdOf != nil, devMode, ite(c.typ.sub != nil, pr, ""))
-//vc:  invariant[C08] 1 "for _, sub := range c.sub" len(c.sub) > 0 ==> devMode == pr && s.subCmdOf == pr
-//vc:  assert[C08] at "s.addChange(s.printNetspocCmd(sub))" @subCommandsFollowTheirParent devMode == pr
-//vc:  ensures[C08] @modeBeliefSound modeBeliefSound(s)
+//vc:  invariant[C08,C01,C02] 1 "for _, sub := range c.sub" len(c.sub) > 0 ==> devMode == pr && s.subCmdOf == pr
+//vc:  assert[C08,C01,C02] at "s.addChange(s.printNetspocCmd(sub))" @subCommandsFollowTheirParent devMode == pr
+//vc:  ensures[C08,C01,C02] @modeBeliefSound modeBeliefSound(s)
 
 //vc:func (*State).delCmds
-//vc:  hypothesis[C08] modeBeliefSound(s)
-//vc:  invariant[C08] 1 "for _, c := range l" @modeBeliefSound modeBeliefSound(s)
-//vc:  assert[C08] at "s.addChange("#1 @subCommandDeletedInsideParentMode c.subCmdOf != nil ==> devMode == c.subCmdOf.orig
+//vc:  hypothesis[C08,C01,C02] modeBeliefSound(s)
+//vc:  invariant[C08,C01,C02] 1 "for _, c := range l" @modeBeliefSound modeBeliefSound(s)
+//vc:  assert[C08,C01,C02] at "s.addChange("#1 @subCommandDeletedInsideParentMode c.subCmdOf != nil ==> devMode == c.subCmdOf.orig
 //vc:  assign after "s.addChange("#1 devMode = ite(c.subCmdOf != nil, devMode, "")
-//vc:  ensures[C08] @modeBeliefSound modeBeliefSound(s)
+//vc:  ensures[C08,C01,C02] @modeBeliefSound modeBeliefSound(s)
 
 // ---- C01/C02: fresh crypto map sequence numbers ----
 // A crypto map entry that exists only in the target gets a sequence number
